@@ -10,7 +10,7 @@ import (
 	"verifharness/internal/val"
 )
 
-var c17Floor = []string{"opts.none", "opts.W", "opts.P", "opts.I", "opts.WP", "opts.WI", "opts.PI", "opts.WPI", "spell.dq", "spell.brackets", "spell.neutral-under-option",
+var c17Floor = []string{"after-rejected", "opts.none", "opts.W", "opts.P", "opts.I", "opts.WP", "opts.WI", "opts.PI", "opts.WPI", "spell.dq", "spell.brackets", "spell.neutral-under-option",
 	"lit.dquote", "lit.squote", "lit.backtick", "lit.backslash", "lit.bracket", "ident.dquote-in-backtick", "ident.bracket", "ident.space", "array.nested", "array.empty", "array.with-bracket-literal", "path.bracket", "where", "shape.derived", "shape.cte", "shape.union"}
 
 func init() {
@@ -110,6 +110,20 @@ func c17Run(c *fw.Case) {
 	force := ""
 	if c.Idx < 4*len(c17Floor) {
 		force = c17Floor[c.Idx%len(c17Floor)]
+	}
+	// a query text the option's rewrite (or the parser) rejects, evaluated just
+	// before: what a rejected query leaves behind must not reach the next one
+	if force == "after-rejected" || c.Chance(0.25) {
+		bad := gen.Pick(c.R, []string{"SELECT 'say \\", "SELECT \"col\\", "SELECT \"a\" FROM t1 WHERE s1 = 'x\\", "SELECT [1, [2", "SELECT \"a", "SELECT 'it''s \" and \\"})
+		ro := OptSet{PG: c.Chance(0.8), Idiomatic: c.Chance(0.5), Wrapped: c.Chance(0.2)}
+		r := Run(map[string]any{"t1": []any{}}, bad, ro.Options()...)
+		if r.Panic != nil {
+			c.Violate("panic", fmt.Sprintf("a rejected query text panicked: %v", r.Panic), map[string]any{"sql": bad, "options": ro.Names()})
+			return
+		}
+		if r.Err != nil {
+			feats = append(feats, "after-rejected")
+		}
 	}
 	// document
 	t := gen.RandTable(c.R, gen.TableSpec{Name: "t1", MinRows: 1, MaxRows: pick(c.Tier, 6, 12), NumCols: 2, StrCols: 1, BoolCols: 1, StrStyle: gen.Hostile})
